@@ -309,8 +309,8 @@ func (s *stressRun) consumer() {
 			if lo < frontN() {
 				lo = frontN()
 			}
-			if dep > obs["max_depth_seen"] {
-				obs["max_depth_seen"] = dep
+			if dep > obs["sum_of_max_depth_seen"] {
+				obs["sum_of_max_depth_seen"] = dep
 			}
 			if dep < lo || (hi >= 0 && dep > hi) || dep > int64(d.Chunks-next)+frontN() {
 				s.report("c20/depth-out-of-bounds:consumer", "consumer: GetDepth() = %d, but the queue held between %d and %d elements during the call (whole chunks taken so far: %d, put-back element at the front: %v)\nlast consumer operations:\n%s",
@@ -508,6 +508,6 @@ func runStress(d Desc) mon.Result {
 	obs["stress_ms"] = time.Since(t0).Milliseconds()
 	return mon.Result{Verdict: mon.Held, NonTrivial: nontrivial, Obs: obs, Tags: tags,
 		Sample: map[string]interface{}{"kind": "stress-" + mode, "gomaxprocs": runtime.GOMAXPROCS(0), "chunks": d.Chunks, "operations": obs["stress_ops"],
-			"requeues": obs["ops_requeue"], "empty_dequeues": obs["ops_dequeue_nil"] + obs["ops_dequeueall_nil"], "max_depth_seen": obs["max_depth_seen"],
+			"requeues": obs["ops_requeue"], "empty_dequeues": obs["ops_dequeue_nil"] + obs["ops_dequeueall_nil"], "max_depth_seen": obs["sum_of_max_depth_seen"],
 			"race_detector": raceEnabled}}
 }
